@@ -1,5 +1,5 @@
 import Driver.Query
-import Treepath.Model.Mutate
+import Treepath.Model.Descr
 /- the `m` (mutate) family: histories of set_/set_match/pop/pop_match/get(store_default) and
 Match handle writes on one evolving document, with the whole reachable object graph dumped
 after every operation under canonical object numbers. -/
@@ -11,6 +11,8 @@ structure MState where
   root : Val
   handles : List (Nat × Handle) := []
   nums : List (Nat × Nat) := []       -- heap id ↦ canonical number (first-visit order)
+  views : List (Nat × Nat × String) := []          -- view id ↦ (heap id of the list, converter)
+  iters : List (Nat × Nat × String × Nat × Bool) := []   -- iterator id ↦ (list heap id, conv, position, exhausted)
 
 def intJ (i : Int) : Json := Json.num (Lean.JsonNumber.fromInt i)
 
@@ -111,6 +113,76 @@ def decDflt (st : MState) (j : Json) : E (Heap × Option Val) := do
     return (h, some v)
   | _ => jErr "bad default" j
 
+
+def negJ : J → J
+  | .int i => .int (-i)
+  | .half n => .half (-n)
+  | j => j
+
+def convOf (name : String) : Conv :=
+  match name with
+  | "neg" => { w := negJ, u := negJ }
+  | _ => { w := id, u := id }
+
+/-- finish with several dumped values -/
+def finishVals (st : MState) (tag : String) (pre : List Json) (vs : List Val) : MState × Json :=
+  let (g, ds) := dumpVal st.heap st.root { nums := st.nums }
+  let (js, ds) := vs.foldl (fun (acc : List Json × DumpSt) v =>
+    let r := dumpVal st.heap v acc.2; (acc.1 ++ [r.1], r.2)) ([], ds)
+  let r := Json.arr ((Json.str tag :: pre) ++ js).toArray
+  ({ st with nums := ds.nums }, Json.mkObj [("r", r), ("g", g)])
+
+def pyErrJ (cls : String) : Json := .arr #[.str "err", .arr #[.str cls]]
+
+/-- path of a declaration: explicit, or the attribute's own name as key -/
+def declPath (d : Json) : E Json := do
+  let a ← getArr d
+  match a.toList with
+  | [.str name, .null] => return .arr #[.arr #[.str "k", .str name]]
+  | [.str _, p] => return p
+  | _ => jErr "bad decl" d
+
+/-- follow the outer (typed) levels of a declaration chain; returns the data the last
+declaration acts on and that declaration's path -/
+def resolveChain (st : MState) (chain : Json) : E (Except ApiErr Val × Json) := do
+  let a ← getArr chain
+  let ds := a.toList
+  match ds.reverse with
+  | [] => jErr "empty chain" chain
+  | last :: outerRev =>
+    let mut data : Except ApiErr Val := .ok st.root
+    for d in outerRev.reverse do
+      let da ← getArr d
+      let p ← declPath (.arr #[da[0]!, da[1]!])
+      let iterK : Option Nat := match da.toList with
+        | [_, _, .str "iter", k] => (k.getNat?).toOption
+        | _ => none
+      data := match data, iterK with
+        | .ok v, none => typedData .get (stepsOfJson p) st.heap v
+        | .ok v, some k =>
+          -- element k of an iterator-typed attribute
+          match descrGet .find (stepsOfJson p) st.heap v with
+          | .ok (.values vs) => match vs[k]? with
+            | some x => .ok x
+            | none => .error (.exc (.user "IndexError"))
+          | .ok _ => .error (.bug "find")
+          | .error e => .error e
+        | .error e, _ => .error e
+    let la ← getArr last
+    return (data, ← declPath (.arr #[la[0]!, la[1]!]))
+
+def predOf (name : String) (h : Heap) : Val → Bool := fun v =>
+  let j := unfoldVal h 64 v
+  match name with
+  | "truthy" => j.truthy
+  | "none" => false
+  | "all" => true
+  | "is_num" => match j with | .int _ | .half _ => true | _ => false
+  | "small" => match j with | .int i => i < 2 | .half n => n < 4 | _ => false
+  | _ => false
+
+def getNatJ (j : Json) : E Nat := match j.getNat? with | .ok n => pure n | .error e => .error e
+
 def runOp (st : MState) (op : Json) : E (MState × Json) := do
   let a ← getArr op
   let src : Src Val := .doc st.root
@@ -182,6 +254,130 @@ def runOp (st : MState) (op : Json) : E (MState × Json) := do
     match st.handles.lookup hid with
     | none => return finish st "nohandle" [] none
     | some hd => return finish st "ok" [] (some hd.cache)
+  | [.str "d.get", chain, .str getter, .str conv] => do
+    let (data, p) ← resolveChain st chain
+    let c := convOf conv
+    let g : Getter := match getter with | "find" => .find | "get_match" => .getMatch | _ => .get
+    match data with
+    | .error e => return finishErr st (errJ e)
+    | .ok d =>
+      match descrGet g (stepsOfJson p) st.heap d with
+      | .ok (.value v) => return finish st "ok" [] (some (c.wrap v))
+      | .ok (.values vs) => return finishVals st "vals" [] vs   -- the converter sees the iterator, not its elements
+      | .ok (.mtch (some m)) => return finish st "match" (matchPre m) (some m.data)
+      | .ok (.mtch none) => return finish st "none" [] none
+      | .error e => return finishErr st (errJ e)
+  | [.str "d.set", chain, .str kind, .str setter, .str conv, vs] => do
+    let (data, p) ← resolveChain st chain
+    let (h, v) ← decValSpec st vs
+    let st := { st with heap := h }
+    match data with
+    | .error e => return finishErr st (errJ e)
+    | .ok d =>
+      let r := if kind == "iter" then descrSetIter st.heap else descrSet (convOf conv) (stepsOfJson p) st.heap d v
+      let _ := setter
+      match r with
+      | (h', .ok _) => return finish { st with heap := h' } "ok" [] none
+      | (h', .error e) => return finishErr { st with heap := h' } (errJ e)
+  | [.str "d.del", chain] => do
+    let (data, p) ← resolveChain st chain
+    match data with
+    | .error e => return finishErr st (errJ e)
+    | .ok d =>
+      match descrDel (stepsOfJson p) st.heap d with
+      | (h', .ok _) => return finish { st with heap := h' } "ok" [] none
+      | (h', .error e) => return finishErr { st with heap := h' } (errJ e)
+  | [.str "pp.get", p] =>
+    match ppropGet (stepsOfJson p) st.heap st.root with
+    | .ok v => return finish st "ok" [] (some v)
+    | .error e => return finishErr st (errJ e)
+  | [.str "mp.get", p] =>
+    match mpropGet (stepsOfJson p) st.heap st.root with
+    | .ok (some m) => return finish st "match" (matchPre m) (some m.data)
+    | .ok none => return finish st "none" [] none
+    | .error e => return finishErr st (errJ e)
+  | [.str "pp.set", p, vs] => do
+    let (h, v) ← decValSpec st vs
+    match ppropSet (stepsOfJson p) h st.root v with
+    | (h', .ok _) => return finish { st with heap := h' } "ok" [] none
+    | (h', .error e) => return finishErr { st with heap := h' } (errJ e)
+  | [.str "l.new", lid, chain, .str conv] => do
+    let lid ← getNatJ lid
+    let (data, p) ← resolveChain st chain
+    match data with
+    | .error e => return finishErr st (errJ e)
+    | .ok d =>
+      match descrGet .get (stepsOfJson p) st.heap d with
+      | .ok (.value (.ref id)) =>
+        match listOf st.heap id with
+        | some _ => return finish { st with views := (lid, id, conv) :: st.views.filter (·.1 != lid) } "view" [] none
+        | none => return finish { st with views := st.views.filter (·.1 != lid) } "notlist" [] none
+      | .ok _ => return finish { st with views := st.views.filter (·.1 != lid) } "notlist" [] none
+      | .error e => return finishErr { st with views := st.views.filter (·.1 != lid) } (errJ e)
+  | .str "l.it.next" :: [itid] => do
+    let itid ← getNatJ itid
+    match st.iters.lookup itid with
+    | none => return finish st "noiter" [] none
+    | some (id, conv, pos, dead) =>
+      let xs := (listOf st.heap id).getD []
+      if dead then return finishErr st (pyErrJ "StopIteration")
+      else match xs[pos]? with
+        | some x => return finish { st with iters := (itid, id, conv, pos+1, false) :: st.iters.filter (·.1 != itid) } "ok" [] (some ((convOf conv).wrap x))
+        | none => return finishErr { st with iters := (itid, id, conv, pos, true) :: st.iters.filter (·.1 != itid) } (pyErrJ "StopIteration")
+  | .str "l.it.new" :: [itid, lid] => do
+    let itid ← getNatJ itid
+    let lid ← getNatJ lid
+    match st.views.lookup lid with
+    | none => return finish st "noview" [] none
+    | some (id, conv) => return finish { st with iters := (itid, id, conv, 0, false) :: st.iters.filter (·.1 != itid) } "ok" [] none
+  | .str lop :: lidJ :: args => do
+    if !lop.startsWith "l." then jErr "bad op" op else
+    let lid ← getNatJ lidJ
+    match st.views.lookup lid with
+    | none => return finish st "noview" [] none
+    | some (id, conv) =>
+      let c := convOf conv
+      match lop, args with
+      | "l.len", [] => match lLen st.heap id with
+        | some n => return finish st "ok" [natJ n] none
+        | none => return finishErr st (pyErrJ "TypeError")
+      | "l.get", [i] => do
+        match lGet c st.heap id (← getInt i) with
+        | some v => return finish st "ok" [] (some v)
+        | none => return finishErr st (pyErrJ "IndexError")
+      | "l.set", [i, vs] => do
+        let (h, v) ← decValSpec st vs
+        match lSet c h id (← getInt i) v with
+        | some h' => return finish { st with heap := h' } "ok" [] none
+        | none => return finishErr { st with heap := h } (pyErrJ "IndexError")
+      | "l.del", [i] => do
+        match lDel st.heap id (← getInt i) with
+        | some h' => return finish { st with heap := h' } "ok" [] none
+        | none => return finishErr st (pyErrJ "IndexError")
+      | "l.in", [vs] => do
+        let (h, v) ← decValSpec st vs
+        match lContains c h id v with
+        | some b => return finish { st with heap := h } "ok" [.bool b] none
+        | none => return finishErr st (pyErrJ "TypeError")
+      | "l.append", [vs] => do
+        let (h, v) ← decValSpec st vs
+        match lAppend c h id v with
+        | some h' => return finish { st with heap := h' } "ok" [] none
+        | none => return finishErr st (pyErrJ "AttributeError")
+      | "l.pop", [i] => do
+        match lPop c st.heap id (← getInt i) with
+        | some (h', v) => return finish { st with heap := h' } "ok" [] (some v)
+        | none => return finishErr st (pyErrJ "IndexError")
+      | "l.iter", [] => match lIter c st.heap id with
+        | some vs => return finishVals st "vals" [] vs
+        | none => return finishErr st (pyErrJ "TypeError")
+      | "l.keep", [.str pn] => match lKeepAll c (predOf pn st.heap) st.heap id with
+        | some h' => return finish { st with heap := h' } "ok" [] none
+        | none => return finishErr st (pyErrJ "TypeError")
+      | "l.remove", [.str pn] => match lRemoveAll c (predOf pn st.heap) st.heap id with
+        | some h' => return finish { st with heap := h' } "ok" [] none
+        | none => return finishErr st (pyErrJ "TypeError")
+      | _, _ => jErr "bad list op" op
   | _ => jErr "bad op" op
 
 def handleMutate (j : Json) : E Json := do
